@@ -41,6 +41,8 @@ CLAIMED.update({
                 ref='DESIGN.md §3 C17', note=NOTE + '; part C uses the flat memory stub (direct CPU writes through the decoder are part A + C06/C07)'),
     'C15': dict(text='three lemmas that compose to the frame statement for a constant scene: (L1) the mode-2 scan marks exactly the objects whose 8 rows contain the line (any object, line, OAM contents; objects 2c,2c+1 in cycle c); (L2) renderPixel(x,y) for every x,y and every VRAM/OAM/LCDC/scroll/window/palette value equals a reference DMG composition written from Pan Docs, writes only that pixel and leaves timing/scan state alone, with candidate objects in a window of consecutive OAM slots (10 quick; more windows and 20-slot windows thorough); (L3) a machine cycle renders exactly pixels 4(c-20)..+3 of line LY for 20<=c<60',
                 ref='DESIGN.md §3 C15', note=NOTE + '; real image.RGBA code is executed (image package bodies exported)'),
+    'C16': dict(text='per source page (configuration; quick: class boundaries + seeded pages, thorough: all 00-F1) with every source/OAM content symbolic: after Write(FF46,page) every OAM read (any FE00-FEFF address) returns FF during the first 161 cycles, the transfer is finished after 162 real Mapper machine cycles, each of the 160 OAM bytes equals the source byte read through the real decoder (E0-F1 through the work-RAM mirror), FEA0-FEFF read 0 afterwards; restart of a running transfer after j cycles',
+                ref='DESIGN.md §3 C16'),
 })
 
 NA_REASON = {
